@@ -70,6 +70,12 @@ def edit(rng, a):
     if kind == "frame":
         what = rng.choice(["add", "del", "size", "id", "ext", "name", "comment", "tx+", "tx-", "attr", "group+", "group-", "groupmember", "groupid"])
         if what == "add":
+            twins = [f for f in b["frames"] if f["id"] <= 0x7FF and not any(g["id"] == f["id"] and g["ext"] != f["ext"] for g in b["frames"])]
+            if twins and rng.random() < 0.4:
+                # the same identifier number in the other format is another identifier
+                t = rng.choice(twins)
+                b["frames"].append(gen_frame(rng, "Ftwin", t["id"], not t["ext"]))
+                return b, "frame.add-twin"
             b["frames"].append(gen_frame(rng, "Fnew", 0x77, False))
             return b, "frame.add"
         if not b["frames"]:
@@ -202,7 +208,12 @@ def edit(rng, a):
         if what == "del":
             b[key].remove(d)
         elif what == "definition":
-            d[1] = "INT 0 77" if d[1] != "INT 0 77" else "STRING"
+            if d[1].startswith("ENUM") and rng.random() < 0.6:
+                d[1] = d[1] + ',"c"' if rng.random() < 0.5 else 'ENUM "a","x"'      # same type, other values
+            elif d[1].startswith("INT") and rng.random() < 0.5:
+                d[1] = "INT 0 101" if d[1] != "INT 0 101" else "INT 1 100"           # same type, other range
+            else:
+                d[1] = "INT 0 77" if d[1] != "INT 0 77" else "STRING"
         else:
             d[2] = "zz" if d[2] != "zz" else None
         return b, "def." + what
